@@ -69,3 +69,14 @@ package api
 //@     invariant forall k string :: in(k, seen1) && libfn("strings.HasPrefix", 0, k, pinOptionsMetaPrefix) && libfn("strings.TrimPrefix", 0, k, pinOptionsMetaPrefix) != "" ==> haskey(po.Metadata, libfn("strings.TrimPrefix", 0, k, pinOptionsMetaPrefix))
 //@     invariant forall o *PinOptions :: o != po ==> *o == old(*o)
 //@   modifies heap(PinOptions)
+
+//@ func DefaultAddParams
+//@   property C11 C12
+//@   ensures res != nil && fresh(res)
+//@   modifies nothing
+
+//@ func AddParamsFromQuery
+//@   property C11 C12
+//@   ensures err != nil ==> res == nil
+//@   ensures err == nil ==> res != nil && fresh(res)
+//@   modifies nothing
